@@ -37,6 +37,7 @@ type rt_src =
 | RsCli of nat
 | RsSrv of nat
 | RsRelay
+| RsInband of bool
 
 type rt_dir =
 | RdIn
@@ -136,14 +137,65 @@ type rt_apc =
 | RaCheck of nat
 | RaDone
 
+type rt_status =
+| StStandby
+| StHandshaking
+| StTransferring
+
+type rt_hspc =
+| HsRecvAct
+| HsStore of bool * bool
+| HsSendAct of bool
+| HsRecvCfg
+| HsSendCfg
+| HsErr1
+| HsErr2
+| HsFlushIn of bool
+| HsFlushOut of bool
+| HsFlushEnd of bool
+| HsIdle
+
+type rt_out = (rt_src * coq_N list) * bool
+
+type rt_hs = { x_status : rt_status; x_pc : rt_hspc; x_lock : bool;
+               x_bufin : (rt_src * coq_N list) list;
+               x_bufout : (rt_src * coq_N list) list; x_outin : rt_out list;
+               x_outout : rt_out list }
+
+val x_status : rt_hs -> rt_status
+
+val x_outin : rt_hs -> rt_out list
+
+val x_outout : rt_hs -> rt_out list
+
+val rt_hs_init : rt_hs
+
+val rt_buf : rt_dir -> rt_hs -> (rt_src * coq_N list) list
+
+val rt_set_buf : rt_dir -> (rt_src * coq_N list) list -> rt_hs -> rt_hs
+
+val rt_add_out : rt_dir -> rt_out -> rt_hs -> rt_hs
+
+val rt_set_pc_lock : rt_hspc -> bool -> rt_hs -> rt_hs
+
+val rt_hs_finish : rt_status -> rt_hs -> rt_hs
+
+val rt_set_status : rt_status -> rt_hs -> rt_hs
+
+val rt_drop_bytes :
+  nat -> (rt_src * coq_N list) list -> (rt_src * coq_N list) list
+
+val rt_buf_bytes : (rt_src * coq_N list) list -> nat
+
 type rt_state = { r_pairs : rt_pair list; r_lis : bool; r_apc : rt_apc;
                   r_connector : bool; r_trelay : nat option; r_era : 
-                  nat; r_tconnected : bool;
-                  r_parked : (rt_src * coq_N list) list }
+                  nat; r_tconnected : bool; r_x : rt_hs }
 
 val r_pairs : rt_state -> rt_pair list
 
 val r_trelay : rt_state -> nat option
+
+val r_x : rt_state -> rt_hs
 
 val rt_init : rt_state
 
@@ -160,14 +212,19 @@ type rt_label =
 | RLCheck
 | RLHandler of nat * pev list option * bool
 | RLWriter of nat * rt_dir
-| RLPump of nat * rt_dir * nat * bool
+| RLPump of nat * rt_dir * nat
 | RLPumpEof of nat * rt_dir
 | RLPumpExit of nat * rt_dir
 | RLPumpSpin of nat * rt_dir
 | RLSetConnector of bool
-| RLActFlag of bool
-| RLInject of rt_dir * coq_N list
+| RLInband of rt_dir * coq_N list
+| RLHsRead of nat * bool * bool * bool
+| RLHs of coq_N list
 | RLReset
+
+val rt_with_x : rt_state -> rt_hs -> rt_state
+
+val rt_handshaking : rt_state -> bool
 
 val rt_half_push : (rt_src * coq_N list) -> rt_half -> rt_half
 
@@ -176,6 +233,12 @@ val rt_half_set_pump : rt_pump -> rt_half -> rt_half
 val rt_half_close_chan : rt_half -> rt_half
 
 val rt_chan_has_room : rt_half -> bool
+
+val rt_route :
+  rt_state -> rt_dir -> (rt_src * coq_N list) -> rt_hspc -> bool -> rt_state
+  option
+
+val rt_reset : rt_state -> rt_hs -> rt_state
 
 val rt_handler :
   coq_N list -> coq_N list -> coq_N list -> coq_N list -> rt_state -> nat ->
